@@ -167,11 +167,52 @@ pub struct World {
 	pub manager_write_held: Vec<bool>,
 	/// per node: switched off (not told about blocks, events not handled)
 	pub offline: Vec<bool>,
+	/// transactions of blocks that were disconnected (for `transaction_unconfirmed`-only reorg styles)
+	pub stale_blocks: BTreeMap<bitcoin::BlockHash, Vec<Transaction>>,
+	/// how nodes are told about the chain (default: whole blocks through `Listen`)
+	pub style: SyncStyle,
 	/// per node: last update id handed to Persist per channel (live), and as of the last manager write
 	pub live_ids: Vec<BTreeMap<ChannelId, u64>>,
 	pub mgr_known_ids: Vec<BTreeMap<ChannelId, u64>>,
 	/// per node: channels that were open in the manager when it was last written
 	pub mgr_known_open: Vec<Vec<ChannelId>>,
+}
+
+/// Chain notification styles permitted by the `Listen` and `Confirm` contracts (C11).
+#[derive(Clone, Copy, Debug, PartialEq, Eq)]
+pub enum SyncStyle {
+	ListenFull,
+	ListenFiltered,
+	ListenReplayed,
+	ConfirmBestFirst,
+	ConfirmTxFirst,
+	ConfirmTxFirstDuplicate,
+	ConfirmRedundantHistory,
+	ConfirmBestFirstSkipping,
+	ConfirmTxFirstSkipping,
+	ConfirmBestFirstUnconfirmOnly,
+	ConfirmTxFirstUnconfirmOnly,
+}
+
+impl SyncStyle {
+	pub fn all() -> Vec<SyncStyle> {
+		vec![
+			SyncStyle::ListenFull,
+			SyncStyle::ListenFiltered,
+			SyncStyle::ListenReplayed,
+			SyncStyle::ConfirmBestFirst,
+			SyncStyle::ConfirmTxFirst,
+			SyncStyle::ConfirmTxFirstDuplicate,
+			SyncStyle::ConfirmRedundantHistory,
+			SyncStyle::ConfirmBestFirstSkipping,
+			SyncStyle::ConfirmTxFirstSkipping,
+			SyncStyle::ConfirmBestFirstUnconfirmOnly,
+			SyncStyle::ConfirmTxFirstUnconfirmOnly,
+		]
+	}
+	pub fn batches(&self) -> bool {
+		matches!(self, SyncStyle::ConfirmBestFirstSkipping | SyncStyle::ConfirmTxFirstSkipping)
+	}
 }
 
 pub fn init_msg(features: lightning::types::features::InitFeatures) -> Init {
@@ -207,6 +248,8 @@ impl World {
 			bogus_reestablish: BTreeMap::new(),
 			manager_write_held: vec![false; n],
 			offline: vec![false; n],
+			stale_blocks: BTreeMap::new(),
+			style: SyncStyle::ListenFull,
 			live_ids: vec![BTreeMap::new(); n],
 			mgr_known_ids: vec![BTreeMap::new(); n],
 			mgr_known_open: vec![Vec::new(); n],
@@ -532,26 +575,171 @@ impl World {
 	/// Tells node `n` about the simulator's best chain, block by block through `Listen`
 	/// (disconnecting first if the node is on a stale fork).
 	pub fn sync_node(&mut self, n: usize) {
-		// find common ancestor
+		let style = self.style;
+		self.sync_node_style(n, style);
+	}
+
+	/// Tells node `n` about the simulator's best chain using one of the notification styles the
+	/// `Listen` / `Confirm` contracts permit (C11). `batch` = the node learns about several blocks at
+	/// once (skipping styles only report the last header).
+	pub fn sync_node_style(&mut self, n: usize, style: SyncStyle) {
+		use lightning::chain::Confirm;
 		let mut common = self.synced[n].len().min(self.chain.blocks.len());
 		while common > 0 && self.synced[n][common - 1] != self.chain.blocks[common - 1].header.block_hash() {
 			common -= 1;
 		}
+		let node = &self.nodes[n];
+		// ---- disconnections ----
 		if common < self.synced[n].len() {
-			let fork_point_height = (common - 1) as u32;
+			let gone: Vec<bitcoin::BlockHash> = self.synced[n][common..].to_vec();
 			let fork_hash = self.synced[n][common - 1];
-			let loc = lightning::chain::BlockLocator::new(fork_hash, fork_point_height);
-			self.nodes[n].mon.blocks_disconnected(loc.clone());
-			self.nodes[n].cm.blocks_disconnected(loc);
+			let fork_height = (common - 1) as u32;
+			match style {
+				SyncStyle::ListenFull | SyncStyle::ListenFiltered | SyncStyle::ListenReplayed => {
+					if style == SyncStyle::ListenFull {
+						// one notification per disconnected block, tip first
+						for k in (common..self.synced[n].len()).rev() {
+							let loc = lightning::chain::BlockLocator::new(self.synced[n][k - 1], (k - 1) as u32);
+							node.mon.blocks_disconnected(loc.clone());
+							lightning::chain::Listen::blocks_disconnected(&*node.cm, loc);
+						}
+					} else {
+						// a single notification for the whole fork
+						let loc = lightning::chain::BlockLocator::new(fork_hash, fork_height);
+						node.mon.blocks_disconnected(loc.clone());
+						lightning::chain::Listen::blocks_disconnected(&*node.cm, loc);
+					}
+				},
+				SyncStyle::ConfirmBestFirstUnconfirmOnly | SyncStyle::ConfirmTxFirstUnconfirmOnly => {
+					// only transaction_unconfirmed for what was in the disconnected blocks; the new best block
+					// follows with the connections below
+					for h in gone.iter() {
+						if let Some(txs) = self.stale_blocks.get(h) {
+							for tx in txs.iter() {
+								node.mon.transaction_unconfirmed(&tx.compute_txid());
+								node.cm.transaction_unconfirmed(&tx.compute_txid());
+							}
+						}
+					}
+				},
+				_ => {
+					// Confirm styles: the new best block is the fork point
+					let hdr = self.chain.blocks[common - 1].header;
+					node.mon.best_block_updated(&hdr, fork_height);
+					node.cm.best_block_updated(&hdr, fork_height);
+				},
+			}
 			self.synced[n].truncate(common);
 		}
-		if common < self.chain.blocks.len() {
-			self.nodes[n].mon_dirty.set(true);
+		// ---- connections ----
+		let tip = self.chain.blocks.len();
+		if common < tip {
+			node.mon_dirty.set(true);
 		}
-		for h in common..self.chain.blocks.len() {
-			let b = &self.chain.blocks[h];
-			self.nodes[n].mon.block_connected(b, h as u32);
-			self.nodes[n].cm.block_connected(b, h as u32);
+		let relevant = |b: &bitcoin::Block| -> Vec<(usize, bitcoin::Transaction)> {
+			let wt = node.chain_src.watched_txn.lock().unwrap();
+			let wo = node.chain_src.watched_outputs.lock().unwrap();
+			b.txdata
+				.iter()
+				.enumerate()
+				.filter(|(_, tx)| {
+					let txid = tx.compute_txid();
+					wt.iter().any(|(t, _)| *t == txid)
+						|| tx.input.iter().any(|i| wo.iter().any(|(o, _)| o.txid == i.previous_output.txid && o.index as u32 == i.previous_output.vout))
+						|| tx.output.iter().any(|o| wt.iter().any(|(_, s)| *s == o.script_pubkey))
+				})
+				.map(|(i, t)| (i, t.clone()))
+				.collect()
+		};
+		for h in common..tip {
+			let b = self.chain.blocks[h].clone();
+			let height = h as u32;
+			let last = h + 1 == tip;
+			let all: Vec<(usize, &bitcoin::Transaction)> = b.txdata.iter().enumerate().collect();
+			match style {
+				SyncStyle::ListenFull => {
+					node.mon.block_connected(&b, height);
+					lightning::chain::Listen::block_connected(&*node.cm, &b, height);
+				},
+				SyncStyle::ListenReplayed => {
+					node.mon.filtered_block_connected(&b.header, &[], height);
+					lightning::chain::Listen::filtered_block_connected(&*node.cm, &b.header, &[], height);
+					node.mon.block_connected(&b, height);
+					lightning::chain::Listen::block_connected(&*node.cm, &b, height);
+				},
+				SyncStyle::ListenFiltered => {
+					// Filter semantics: outputs registered while processing must be matched against the same block again
+					let mut seen: Vec<bitcoin::Txid> = Vec::new();
+					loop {
+						let rel = relevant(&b);
+						let fresh: Vec<(usize, bitcoin::Transaction)> = rel.into_iter().filter(|(_, t)| !seen.contains(&t.compute_txid())).collect();
+						let refs: Vec<(usize, &bitcoin::Transaction)> = fresh.iter().map(|(i, t)| (*i, t)).collect();
+						if seen.is_empty() || !refs.is_empty() {
+							if seen.is_empty() {
+								node.mon.filtered_block_connected(&b.header, &refs, height);
+								lightning::chain::Listen::filtered_block_connected(&*node.cm, &b.header, &refs, height);
+							} else {
+								node.mon.transactions_confirmed(&b.header, &refs, height);
+								node.cm.transactions_confirmed(&b.header, &refs, height);
+							}
+						}
+						if fresh.is_empty() {
+							break;
+						}
+						seen.extend(fresh.iter().map(|(_, t)| t.compute_txid()));
+					}
+				},
+				SyncStyle::ConfirmBestFirst | SyncStyle::ConfirmBestFirstUnconfirmOnly => {
+					node.mon.best_block_updated(&b.header, height);
+					node.mon.transactions_confirmed(&b.header, &all, height);
+					node.cm.best_block_updated(&b.header, height);
+					node.cm.transactions_confirmed(&b.header, &all, height);
+				},
+				SyncStyle::ConfirmTxFirst | SyncStyle::ConfirmTxFirstUnconfirmOnly => {
+					node.mon.transactions_confirmed(&b.header, &all, height);
+					node.mon.best_block_updated(&b.header, height);
+					node.cm.transactions_confirmed(&b.header, &all, height);
+					node.cm.best_block_updated(&b.header, height);
+				},
+				SyncStyle::ConfirmTxFirstDuplicate => {
+					node.mon.transactions_confirmed(&b.header, &all, height);
+					node.mon.transactions_confirmed(&b.header, &all, height);
+					node.mon.best_block_updated(&b.header, height);
+					node.cm.transactions_confirmed(&b.header, &all, height);
+					node.cm.transactions_confirmed(&b.header, &all, height);
+					node.cm.best_block_updated(&b.header, height);
+				},
+				SyncStyle::ConfirmRedundantHistory => {
+					// re-confirm every transaction-bearing block of the current chain first
+					for hh in 1..h {
+						let ob = &self.chain.blocks[hh];
+						if !ob.txdata.is_empty() {
+							let oa: Vec<(usize, &bitcoin::Transaction)> = ob.txdata.iter().enumerate().collect();
+							node.mon.transactions_confirmed(&ob.header, &oa, hh as u32);
+							node.cm.transactions_confirmed(&ob.header, &oa, hh as u32);
+						}
+					}
+					node.mon.transactions_confirmed(&b.header, &all, height);
+					node.mon.best_block_updated(&b.header, height);
+					node.cm.transactions_confirmed(&b.header, &all, height);
+					node.cm.best_block_updated(&b.header, height);
+				},
+				SyncStyle::ConfirmTxFirstSkipping | SyncStyle::ConfirmBestFirstSkipping => {
+					// intermediate blocks: only their transactions; the best block is reported for the last one only
+					if style == SyncStyle::ConfirmBestFirstSkipping && last {
+						node.mon.best_block_updated(&b.header, height);
+						node.cm.best_block_updated(&b.header, height);
+					}
+					if !b.txdata.is_empty() {
+						node.mon.transactions_confirmed(&b.header, &all, height);
+						node.cm.transactions_confirmed(&b.header, &all, height);
+					}
+					if style == SyncStyle::ConfirmTxFirstSkipping && last {
+						node.mon.best_block_updated(&b.header, height);
+						node.cm.best_block_updated(&b.header, height);
+					}
+				},
+			}
 			self.synced[n].push(b.header.block_hash());
 		}
 		self.pump();
